@@ -97,7 +97,7 @@ func (m MVal) show(k Kind) string {
 type ColSpec struct {
 	Name  string `json:"name"`
 	Kind  Kind   `json:"kind"`
-	Merge string `json:"merge,omitempty"` // "" default, "affine" (numbers: v*3+d), "concat" (strings), "sum" (records)
+	Merge string `json:"merge,omitempty"` // "" default, "affine" (numbers: v*3+d), "concat" / "short" (strings: append / keep the shorter), "sum" (records)
 }
 
 // PredSpec is a predicate family instance usable as an index rule and as a filter.
@@ -515,6 +515,15 @@ func init() {
 	})
 }
 
+// mergeShort is the user merge "keep the shorter one": unlike concatenation its result can
+// be strictly shorter than the delta.
+func mergeShort(v, d string) string {
+	if v != "" && len(v) < len(d) {
+		return v
+	}
+	return d
+}
+
 // makeColumn builds the library column for a spec.
 func makeColumn(c ColSpec) column.Column {
 	switch c.Kind {
@@ -523,6 +532,9 @@ func makeColumn(c ColSpec) column.Column {
 	case KString:
 		if c.Merge == "concat" {
 			return column.ForString(column.WithMerge(func(v, d string) string { mergeYield(); return v + d }))
+		}
+		if c.Merge == "short" {
+			return column.ForString(column.WithMerge(func(v, d string) string { mergeYield(); return mergeShort(v, d) }))
 		}
 		return column.ForString()
 	case KEnum:
@@ -545,6 +557,9 @@ func modelMerge(c ColSpec, cur, delta MVal) MVal {
 	case KString:
 		if c.Merge == "concat" {
 			return MVal{S: cur.S + delta.S}
+		}
+		if c.Merge == "short" {
+			return MVal{S: mergeShort(cur.S, delta.S)}
 		}
 		return MVal{S: delta.S}
 	case KRecord:
